@@ -496,6 +496,34 @@ func ruleCtorFlag(w *World, r *Report, pfx string, trig, pred *ssa.Function, opt
 			}
 		})
 		r.Check(bad == "" && sawSet && sawUnset, pfx+".F7", "bar state constructor", w.pos(mk.Pos()), "triggerComplete <- true exactly under total > 0", orStr(bad, "missing branch"))
+		// F7t: the initial counters: total is the caller's value, whatever its sign (the documented rules
+		// are stated "from every initial total": a negative one is the cap EnableTriggerComplete applies),
+		// current starts at zero
+		badT := ""
+		nT := 0
+		_, overT := w.enumPaths(mk, pathOpts{InlineDepth: 2, Inline: w.helperInline(mk), MaxPaths: 50000}, func(p *Path) {
+			if p.Exit != "return" || badT != "" {
+				return
+			}
+			nT++
+			st := p.storesTo(tBState, "total")
+			switch {
+			case len(st) == 0:
+				badT = "the constructor has a path that does not store the initial total"
+			case !isTotal(Val{V: w.origin(p.R(st[len(st)-1].Val).V)}):
+				badT = "the constructor stores an initial total other than the caller's value (e.g. a non-positive total normalised to 0: EnableTriggerComplete/SetTotal(-1) then cap at a different value than documented)"
+			}
+			for _, c := range p.storesTo(tBState, "current") {
+				if k, ok := constInt(p.R(c.Val).V); !ok || k != 0 {
+					badT = "the constructor starts the counter at a value other than zero"
+				}
+			}
+		})
+		if overT {
+			r.Undecided(pfx+".F7t", "bar state constructor: initial counters", w.pos(mk.Pos()), "path cap")
+		} else {
+			r.Check(badT == "" && nT > 0, pfx+".F7t", "bar state constructor: initial counters", w.pos(mk.Pos()), "total <- the caller's total on every path; current starts at 0", orStr(badT, "no returning path"))
+		}
 	} else {
 		r.Unresolved("anchor", "bar state constructor", "function allocating bState not found")
 	}
